@@ -109,3 +109,62 @@ def run(rec, name, templates, pool=None):
 
 def replay(rec, name, case):
     order_independence(rec, [(f, c) for f, c in case['items']], name)
+
+
+# -- workbook level: a model does not depend on the models built before it ----
+
+_MODEL_CHILD = r'''
+import json, sys, logging
+logging.getLogger('pycel').setLevel(logging.CRITICAL + 1)
+from vlib import wbspec, models
+from vlib.xl import compile_spec, exc_key
+jobs = json.load(sys.stdin)
+out = []
+for idx, spec in jobs:
+    res = {}
+    try:
+        model = compile_spec(wbspec.build_spec(spec))
+        for addr in spec['formulas'] + spec.get('ranges', []):
+            v = models.safe_eval(model, addr)
+            res[addr] = [type(v).__name__, repr(v)]
+    except Exception as exc:
+        res['<compile>'] = ['raises', exc_key(exc)]
+    out.append([idx, res])
+json.dump(out, sys.stdout)
+'''
+
+
+def model_order_independence(rec, specs, name):
+    """Every workbook spec is compiled and fully evaluated in a brand-new
+    interpreter in forward and in reversed order of the list (sheet titles
+    are the same in all specs, sizes differ): state that leaks from one
+    model into the next - a cache keyed by sheet title, a moved active sheet,
+    a class attribute - shows as a result that depends on the order."""
+    indexed = [[i, s] for i, s in enumerate(specs)]
+    results = {}
+    for label, order in (('forward', indexed), ('reversed', indexed[::-1]),
+                         ('alone-last', indexed[-1:]),
+                         ('alone-first', indexed[:1])):
+        proc = subprocess.run([sys.executable, '-c', _MODEL_CHILD],
+                              input=json.dumps(order), text=True,
+                              capture_output=True, env=dict(os.environ),
+                              timeout=900)
+        if proc.returncode != 0:
+            from vlib.runner import HarnessError
+            raise HarnessError('model child failed: ' + proc.stderr[-400:])
+        results[label] = dict((i, r) for i, r in json.loads(proc.stdout))
+    base = results['forward']
+    for i, spec in indexed:
+        rec.case(key=('model-order', name, repr(spec['sheets'])),
+                 nontrivial=True, labels=('model-order',),
+                 sample=dict(sheets=spec['sheets']))
+        for label, res in results.items():
+            if i in res and res[i] != base[i]:
+                addr = next(a for a in base[i]
+                            if res[i].get(a) != base[i].get(a))
+                rec.fail(f'{name}:model-order-dependent', dict(
+                    kind='model-order', specs=specs, index=i),
+                    f'{addr} = {base[i].get(addr)} when the workbook is '
+                    f'number {i + 1} of {len(specs)} compiled in one '
+                    f'interpreter, {res[i].get(addr)} in {label} order')
+                return
